@@ -61,6 +61,15 @@ def routes3(T0, T1, with_start):
     else:
         out["UnitQuaternion.interp"] = (lambda s: b.r2t(uq_to_R(q1.interp(s).vec)), False)
         out["UnitQuaternion.interp(shortest)"] = (lambda s: b.r2t(uq_to_R(q1.interp(s, shortest=True).vec)), False)
+    # the same rotations held as the OTHER quaternion of the double cover (negative scalar part): with shortest=True
+    # the result must still follow the shorter arc
+    n0, n1 = UnitQuaternion(-q0.vec), UnitQuaternion(-q1.vec)
+    if with_start:
+        out["UnitQuaternion.interp(dest=-q,shortest)"] = (lambda s: b.r2t(uq_to_R(q0.interp(s, dest=n1, shortest=True).vec)), False)
+        out["UnitQuaternion(-q).interp(dest,shortest)"] = (lambda s: b.r2t(uq_to_R(n0.interp(s, dest=q1, shortest=True).vec)), False)
+        out["base.slerp(q0,-q1,shortest)"] = (lambda s: b.r2t(uq_to_R(b.slerp(q0.vec, n1.vec, s, shortest=True))), False)
+    else:
+        out["UnitQuaternion(-q).interp(shortest)"] = (lambda s: b.r2t(uq_to_R(n1.interp(s, shortest=True).vec)), False)
     return out
 
 
